@@ -66,7 +66,7 @@ var poolCandidates = []int{5, 6, 7, 10, 11, 12, 28, 29, 8, 9, 13, 14, 1, 30, 31,
 
 // Weights of the constructs a profile emits.
 type Weights struct {
-	Alu, Div, Load, Store, Branch, Jump, Call, Loop, Walk, Nop int
+	Alu, Div, Load, Store, Branch, Jump, Call, Loop, Walk, Nop, EvictReread int
 }
 
 // Profile parameterises the program builder.
@@ -660,8 +660,12 @@ func min32(a, b int32) int32 {
 // Construct emits one top-level construct chosen by the profile weights.
 func (b *Builder) Construct() {
 	w := b.P.W
-	total := w.Alu + w.Div + w.Load + w.Store + w.Branch + w.Jump + w.Call + w.Loop + w.Walk
+	total := w.Alu + w.Div + w.Load + w.Store + w.Branch + w.Jump + w.Call + w.Loop + w.Walk + w.EvictReread
 	x := rapid.IntRange(0, total-1).Draw(b.t, "construct")
+	if x >= total-w.EvictReread {
+		b.EvictReread()
+		return
+	}
 	switch {
 	case x < w.Alu:
 		b.Alu()
@@ -1095,4 +1099,53 @@ func VIProgram(t *rapid.T, p Profile) (*Case, []int) {
 	b.Exit()
 	b.Finish(c)
 	return c, data
+}
+
+// EvictReread emits a write pass over more lines than the smallest cache
+// holds, optionally an evicting pass over other lines, and a read-back pass that
+// folds what was written into the checksum register: lines are written,
+// evicted and read again.
+func (b *Builder) EvictReread() {
+	if b.depth > 0 {
+		b.inLoopAtom()
+		return
+	}
+	memSize := int32(len(b.Init.Mem))
+	lines := memSize / 64
+	if lines < 20 {
+		b.Walk()
+		return
+	}
+	n := rapid.Int32Range(17, min32(lines, 40)).Draw(b.t, "erlines")
+	off := rapid.Int32Range(0, 15).Draw(b.t, "eroff") * 4
+	start := rapid.Int32Range(0, lines-n).Draw(b.t, "erstart") * 64
+	w := rapid.IntRange(0, 2).Draw(b.t, "erwidth")
+	if b.P.NoSubword {
+		w = 0
+	}
+	ld, st := loadOps[w], storeOps[w]
+	src := b.reg("src")
+	loop := func(body func()) {
+		b.emit(ref.Ins{Op: "li", Rd: RegCnt, Imm: n})
+		b.emit(ref.Ins{Op: "li", Rd: RegPtr, Imm: start + off})
+		l := b.label()
+		b.place(l)
+		body()
+		b.emit(ref.Ins{Op: "addi", Rd: RegPtr, Rs1: RegPtr, Imm: 64})
+		b.emit(ref.Ins{Op: "addi", Rd: RegCnt, Rs1: RegCnt, Imm: -1})
+		b.emit(ref.Ins{Op: "bnez", Rs1: RegCnt, Label: l})
+	}
+	loop(func() {
+		b.emit(ref.Ins{Op: st, Rs2: src, Rs1: RegPtr, Imm: 0})
+		b.emit(ref.Ins{Op: "add", Rd: RegSum, Rs1: RegSum, Rs2: RegCnt})
+	})
+	for k := rapid.IntRange(0, 2).Draw(b.t, "erfill"); k > 0; k-- {
+		b.Alu()
+	}
+	data := b.dest("data")
+	loop(func() {
+		b.emit(ref.Ins{Op: ld, Rd: data, Rs1: RegPtr, Imm: 0})
+		b.emit(ref.Ins{Op: "add", Rd: RegSum, Rs1: RegSum, Rs2: data})
+	})
+	b.Meta["evictreread"]++
 }
